@@ -32,11 +32,12 @@ def interactive_part(report, rng, tier):
             base = subprocess.run([cli] + flags + [hcl, yo, str(t)], capture_output=True, timeout=60, stdin=subprocess.DEVNULL)
             for k in sorted({0, 1, want_cycles // 2, want_cycles + 3}):
                 opt = rng.choice(["-i", "--interactive"])
-                r = subprocess.run([cli, opt] + flags + [hcl, yo, str(t)], capture_output=True, timeout=60, input=b"\n" * k)
+                answers = b"".join(rng.choice([b"\n", b"\n", b"\n", b"next\n", b"\xff\xfe\n", b"\r\n"]) for _ in range(k))
+                r = subprocess.run([cli, opt] + flags + [hcl, yo, str(t)], capture_output=True, timeout=60, input=answers)
                 n += 1
                 out = b"".join(l for l in r.stdout.splitlines(True) if l.strip() != b"(press enter to continue)")
                 prompts = r.stdout.count(b"(press enter to continue)")
-                rep = {"hcl": open(hcl).read(), "seq": seq, "timeout": t, "flags": flags + [opt], "stdin_lines": k,
+                rep = {"hcl": open(hcl).read(), "seq": seq, "timeout": t, "flags": flags + [opt], "stdin_lines": k, "stdin_hex": answers.hex(),
                        "expected_cycles": want_cycles, "expected_kind": want_kind,
                        "exit": r.returncode, "exit_without_i": base.returncode,
                        "stdout": r.stdout.decode("utf-8", "replace")[-1500:], "stdout_without_i": base.stdout.decode("utf-8", "replace")[-1500:],
